@@ -69,12 +69,18 @@ def reader_corr(ctx, n, orders, sample, sub="readercorr", compare=True):
         return None
     summ = ctx.read_jsonl(os.path.join(d, "fails.jsonl"))
     if compare:
-        rc2, out2 = C.sh("%s %s > %s" % (drv, os.path.join(d, "cases.txt"), os.path.join(d, "model.txt")), timeout=3000)
+        rc2, out2 = C.sh("%s %s %s > %s" % (drv, os.path.join(d, "cases.txt"), os.path.join(d, "stats.txt"), os.path.join(d, "model.txt")), timeout=3000)
         if rc2 != 0:
             ctx.diag.append("extracted reader model crashed: " + out2[-300:])
+        try:
+            stats = {a[0]: int(a[1]) for a in (l.split() for l in open(os.path.join(d, "stats.txt"))) if len(a) == 2}
+        except (OSError, ValueError):
+            stats = {}
         ctx.compare("reader shape model: line verdicts, reader state, returned file", os.path.join(d, "model.txt"), os.path.join(d, "impl.txt"), os.path.join(d, "cases.txt"))
     if summ:
         ctx.cov["reader_correspondence"] = {"cases": summ.get("evaluations"), "distribution": summ.get("distribution"), "panics_by_frame": summ.get("panics")}
+        if compare:
+            ctx.cov["reader_correspondence"]["model_lines"] = stats
     return summ
 
 
